@@ -6,11 +6,11 @@ import random
 ID = "C07"
 TITLE = "object generation yields exactly the objects of the class, each once"
 COQ_PROPS = "Props/C07.v"
-COQ_RUN = ("Count.ObjectsRun", "run_c07")
+COQ_RUN = ("Count.ParseTreesRun", "run_c07p")   # = run_c07 + the parse-tree queries 5/6 (C07_run_extends)
 GEN_TARGETS = ["compositions"]
 N = {"quick": 2000, "thorough": 24000}
 RULE = (
-    "two streams. (spec, 60%) REAL specifications returned by auto_search: words_ext (16 start classes x 10 packs "
+    "two streams. (spec, 60%) REAL specifications returned by auto_search: words_ext (28 start classes x 18 packs "
     "incl. symmetries, inferral, factories, verification strategies with packs, iterative x 4 rule databases incl. "
     "RuleDBForest with reverse rules x expand_verified x smallest) and word classes WITH STATISTICS (number of "
     "occurrences of chosen letters as extra parameters; union/product/symmetry strategies that keep, rename or drop "
@@ -27,7 +27,13 @@ RULE = (
     "transcribed get_terms from the numbers of objects in the children's dictionaries), get_terms(n) of every rule - "
     "verification rules and brute-force children included - through the model's TERMS caches (Count/ObjectsTermsModel.v; "
     "sizes in random order on shared terms caches), forward_map then "
-    "backward_map on the objects of every rule's parent. Model and implementation are compared as sorted lists. "
+    "backward_map on the objects of every rule's parent (<= 120 sampled objects of size <= 7 per rule); in the spec "
+    "stream additionally OBJECTS <-> PARSE TREES (queries 5/6): for every object of the root up to the size bound (60 "
+    "sampled above that) and 6 objects of every other class, the parse tree the model computes through its forward maps "
+    "(derived forms included) is compared with the tree of the real object through Rule.forward_map (format of c12.py "
+    "Desc.tree), and unparse(parse o) of the model with the real backward maps composed bottom-up; when a leaf is a "
+    "verification rule that is not an atom both sides answer 'no tree' (37% of these queries on the shipped universes). "
+    "Model and implementation are compared as sorted lists. "
     "auto_search runs under a scripted clock and a PRNG seeded from the case (the specification it returns otherwise "
     "depends on wall-clock time). "
     "Non-trivial: the root has >= 4 objects of some size and the case contains a product or a path of >= 2 forms "
@@ -43,14 +49,29 @@ LEVEL_TEXT = (
     "the (parameters, tuple) pairs enumerated by DisjointUnion.get_sub_objects / CartesianProduct.get_sub_objects "
     "followed by itertools.product are, without repetition, exactly the splits of the children's objects "
     "(C07_union_sub_objects, C07_product_sub_objects - the latter over utils.compositions re-translated from /repo on "
-    "every run); one level built by Rule._ensure_level_objects under the bijection contract of the strategy's maps "
+    "every run; both under the hypothesis that the children's dictionaries are `good`, the product also under bounds_ok); one level built by Rule._ensure_level_objects under the bijection contract of the strategy's maps "
     "holds every object of that size once under its parameters (C07_union_level, C07_product_level); for a closed, "
     "one-rule-per-class specification with a productivity certificate, get_objects through the level-by-level caches "
-    "terminates from every consistent cache state, never re-enters a level in progress, keeps the caches consistent and "
+    "terminates from every consistent cache state, keeps the caches consistent and "
     "generate_objects_of_size returns a duplicate-free permutation of the class's objects for every size and "
     "parameter tuple (C07_generate_exact, C07_generate_perm); EquivalenceRule, ReverseRule of an equivalence, "
     "EquivalenceRule(ReverseRule) and EquivalencePathRule round-trip with parts in the right classes "
-    "(C07_roundtrip_*); ReverseRule: the flag len(original_rule.non_empty_children()) == 1 computed from truthful "
+    "(C07_roundtrip_*: one-way `link`s, for an original rule whose constructor is a DisjointUnion satisfying "
+    "union_contract and whose other children are empty; the path theorem assumes a chain of links); "
+    "DERIVED FORMS SATISFY THE FULL CONTRACT (both directions, size law, parameter law), so that the node "
+    "RUnion [child] [map] derived_backward_map standing for them meets the hypothesis of C07_generate_exact and can be a "
+    "node of parse trees: C07_equivalence_contract (EquivalenceRule), C07_reverse_equivalence_contract (+ _flag: with the "
+    "flag computed from truthful is_empty answers) and C07_reverse_single_contract (the reversed parameter map must undo "
+    "the child's map on the tuples that occur), C07_path_contract (EquivalencePathRule of steps each with the full "
+    "contract; parameter map = composition); "
+    "OBJECTS ARE PARSE TREES (Count/ParseTrees*.v, shared with C08 and C12): for a closed one-rule-per-class productive "
+    "specification whose rules honour the contracts with their forward maps given (node_ok; verified classes are atoms or "
+    "empty), for every class, size and parameter tuple, unparse (backward maps bottom-up, each yielding exactly one "
+    "object) is a bijection from the well-formed parse trees of the class with that size and parameters onto its objects "
+    "with them, parse (forward maps top-down) computes the inverse with enough fuel, and both commute with the rules' maps "
+    "at every node (C07_objects_are_parse_trees, C07_parse_unparse, C07_parse_sound, C07_node_commutes_union/_product, "
+    "C07_node_ok_rule_ok); C07_run_extends: the extracted run_c07p answers inputs without the new queries as run_c07; "
+    "ReverseRule: the flag len(original_rule.non_empty_children()) == 1 computed from truthful "
     "is_empty answers is true exactly when child idx is the only non-empty child (C07_reverse_flag), with the flag "
     "false both maps raise (C07_reverse_refuses), and with the other children empty the reverse rule is a bijection "
     "in BOTH directions between child idx and the original parent, sizes kept (C07_reverse_bijection; "
@@ -80,8 +101,14 @@ LEVEL_NOTE = (
     "param_map, get_terms of the two constructors, Rule._ensure_level / VerificationRule._ensure_level / get_terms / "
     "count_objects_of_size (Count/ObjectsTermsModel.v, run against the code by the queries of kind 4: get_terms(n) of "
     "every rule through shared terms caches, sizes in random order; the model takes a verification strategy's get_terms "
-    "to be the numbers of objects its get_objects lists; the oracle also compares count_objects_of_size with "
-    "len(generated) on every case). "
+    "to be the numbers of objects its get_objects lists; the oracle compares count_objects_of_size with "
+    "len(generated) for the ROOT of spec-stream cases only (60% of the cases); other classes and the rule stream only "
+    "have get_terms compared with brute-force counts for sizes <= min(N, P)). "
+    "Parse trees: parse / unparse / the derived maps made total are modelled (Count/ParseTrees.v, ParseTreesForms.v) and "
+    "tied by queries 5/6; verification rules with several objects have no leaf (no tree: both sides answer -1), "
+    "Complement/Quotient nodes are outside. The contracts node_ok are hypotheses on user code (checked per case by the "
+    "kind-2 round trips on sampled objects, not proved); for derived forms they are now THEOREMS from the original rule's "
+    "contract + others_empty (the reverse direction also needs the reversed parameter map to undo the child's map). "
     "C07_count_eq_length_partial (which ASSUMES the count is right) is kept beside the assumption-free "
     "C07_count_eq_length. C07_count_eq_length treats a Counter as a dictionary (distinct keys: keys_ok) and needs the "
     "verification strategies' contract get_terms[p] = len(get_objects[p]) (C07_count_eq_length_needs_verified_counts "
@@ -96,14 +123,23 @@ TRUSTED = [
     "Rule._ensure_level_objects/get_objects/generate_objects_of_size, VerificationRule._ensure_level_objects, "
     "Rule._ensure_level/VerificationRule._ensure_level/get_terms/count_objects_of_size (Count/ObjectsTermsModel.v), "
     "EquivalenceRule/ReverseRule/EquivalencePathRule forward_map/backward_map, Constructor.param_map, "
-    "DisjointUnion.param_map (Count/ObjectsModel.v) - tied by this correspondence",
+    "DisjointUnion.param_map (Count/ObjectsModel.v) - tied by this correspondence (hand copies param_map_sum / "
+    "param_map_first; the regenerated Gen/ConstructorParamMap.v, Gen/UnionParamMap.v and CartesianProduct min_sizes / "
+    "max_sizes of other properties are not used here: min/max sizes enter as data, contract bounds_ok); "
+    "Count/ParseTrees.v parse / unparse, Count/ParseTreesForms.v tot_fwd / tot_bwd, Count/ParseTreesRun.v - tied by the "
+    "queries of kinds 5 and 6",
     "the strategies' own forward_map/backward_map and non-atom verification strategies' get_objects are user code: "
     "tabulated by the harness from the real objects and handed to the model (Section variables in the theorems)",
     "exceptions raised by user maps are not modelled (the model's derived maps return None where rule.py raises)",
 ]
 ASSUMPTIONS = [
     "strategies honour the bijection contract (backward(forward o) = [o], parts in the children, sizes add, "
-    "parameters follow extra_parameters; union children disjoint) - checked by brute force on every case",
+    "parameters follow extra_parameters; union children disjoint) - checked per case on <= 120 sampled objects per rule "
+    "up to size 7, the parameter law only through the kind-1 pairs vs cls.get_parameters; for EquivalenceRule / "
+    "EquivalencePathRule / ReverseRule nodes the contract of the DERIVED maps follows from the original rule's "
+    "(C07_equivalence_contract, C07_reverse_equivalence_contract, C07_path_contract) given others_empty",
+    "C07_objects_are_parse_trees: forward maps given as functions; every verification rule is an atom (one object) or "
+    "empty; sizes are >= 0",
     "CartesianProduct: min/max sizes are true bounds, minima >= 0, at least one child (bounds_ok)",
     "specification closed, one rule per class, productive (rank certificate over the reads of every level)",
     "sizes n >= 0 (get_objects(-1) indexes the cache from the end in Python; outside the property)",
@@ -479,6 +515,21 @@ def _queries(w, case):
         q4 += [[4, 0, x] for x in range(min(n, case["P"]) + 1)]
         for q in q4:
             qs.insert(rnd4.randint(0, len(qs)), q)
+    if w.spec is not None and not w.mapsonly:
+        # objects <-> parse trees (kinds 5, 6): parse / unparse(parse) of objects of the root (every object up to
+        # the size bound, sampled above 60) and of a few objects of every other class with a non-verification
+        # rule; own generator, appended last: the other queries keep their order
+        rnd5 = random.Random(case["qseed"] ^ 0x0C07)
+        for lab, r in enumerate(w.rules):
+            if r is None or (lab and isinstance(r, VerificationRule)):
+                continue
+            objs = [o for x in range((n if lab == 0 else m) + 1) for o in _objs(w.classes[lab], x)]
+            cap = 60 if lab == 0 else 6
+            if len(objs) > cap:
+                objs = rnd5.sample(objs, cap)
+            for o in objs:
+                qs.append([5, lab, U.enc(o)])
+                qs.append([6, lab, U.enc(o)])
     return qs
 
 
@@ -544,6 +595,15 @@ def impl(case):
             elif kind == 4:
                 t = cls.get_terms(x) if r is None else r.get_terms(x)
                 out.append(sorted([list(p), v] for p, v in t.items() if v))
+            elif kind in (5, 6):
+                t, ok = _real_tree(w, lab, U.dec(x))
+                if not ok:
+                    out.append([-1])      # a leaf that is not an atom: no parse tree in the model
+                elif kind == 5:
+                    out.append(t)
+                else:
+                    back = _real_unparse(w, t)
+                    out.append([-1] if back is None else [U.enc(back)])
             elif kind == 1:
                 ps = []
                 for param, subobjects in r.constructor.get_sub_objects(r.subobjects, x):
@@ -567,6 +627,58 @@ def impl(case):
     return dict(extra, out=out)
 
 
+# ------------------------------------------------------------------ parse trees of real objects
+def _is_atom_rule(r):
+    from comb_spec_searcher.strategies.rule import VerificationRule
+    from comb_spec_searcher.strategies.strategy import AtomStrategy
+
+    return isinstance(r, VerificationRule) and isinstance(r.strategy, AtomStrategy)
+
+
+def _real_tree(w, lab, obj):
+    """the parse tree of a real object through Rule.forward_map, in the format of harness/props/c12.py Desc.tree:
+    [0, label] for a childless rule, [1, label, [[] | [tree] per child]]; second component: every leaf is an atom"""
+    r = w.rules[lab]
+    if r is None or not r.children:
+        return [0, lab], (r is not None and _is_atom_rule(r))
+    parts = r.forward_map(obj)
+    kids, ok = [], True
+    for klab, p in zip(w.kids[lab], parts):
+        if p is None:
+            kids.append([])
+        else:
+            t, o = _real_tree(w, klab, p)
+            ok = ok and o
+            kids.append([t])
+    return [1, lab, kids], ok
+
+
+def _real_unparse(w, t):
+    """backward maps composed bottom-up (what Rule.random_sample_object_of_size and ParseTreeMap.map_rec do);
+    None when some backward map does not yield exactly one object"""
+    lab = t[1]
+    cls, r = w.classes[lab], w.rules[lab]
+    if t[0] == 0:
+        return next(cls.objects_of_size(cls.minimum_size_of_object()))
+    parts = []
+    for k in t[2]:
+        if not k:
+            parts.append(None)
+        else:
+            y = _real_unparse(w, k[0])
+            if y is None:
+                return None
+            parts.append(y)
+    objs = list(r.backward_map(tuple(parts)))
+    return objs[0] if len(objs) == 1 else None
+
+
+def _leaf_sizes(w, t):
+    if t[0] == 0:
+        return w.classes[t[1]].minimum_size_of_object()
+    return sum(_leaf_sizes(w, k[0]) for k in t[2] if k)
+
+
 # ------------------------------------------------------------------ oracle (brute force over words)
 def _trim(t, k):
     """example.py's ExpansionStrategy.forward_map returns one trailing None too many; harmless for the
@@ -575,6 +687,30 @@ def _trim(t, k):
     while len(t) > k and t[-1] == -1:
         t.pop()
     return t
+
+
+def _tree_shape(w, t):
+    from comb_spec_searcher.strategies.constructor import CartesianProduct
+
+    if t[0] == 0:
+        return None
+    r = w.rules[t[1]]
+    if len(t[2]) != len(w.kids[t[1]]):
+        return "node of rule %d has %d parts for %d children" % (t[1], len(t[2]), len(w.kids[t[1]]))
+    some = sum(1 for k in t[2] if k)
+    if isinstance(r.constructor, CartesianProduct):
+        if some != len(t[2]):
+            return "product node of rule %d misses a part" % t[1]
+    elif some != 1:
+        return "union node of rule %d has %d parts" % (t[1], some)
+    for klab, k in zip(w.kids[t[1]], t[2]):
+        if k:
+            if k[0][1] != klab:
+                return "part labelled %d under child %d" % (k[0][1], klab)
+            bad = _tree_shape(w, k[0])
+            if bad:
+                return bad
+    return None
 
 
 def oracle(case, res):
@@ -612,6 +748,20 @@ def oracle(case, res):
             truth = sorted([list(p), len(l)] for p, l in U.brute(cls, x).items())
             if a != truth:
                 return "get_terms(%d) of rule %d = %r, numbers of objects %r" % (x, lab, a, truth)
+        elif kind == 5:
+            # the parse tree of an object has the object's size (sum of the atoms at its leaves), its nodes carry
+            # the children the rule has, and a union node has exactly one part
+            if a != [-1]:
+                o = U.dec(x)
+                if _leaf_sizes(w, a) != len(o):
+                    return "parse tree of %r in class %d has size %d" % (str(o), lab, _leaf_sizes(w, a))
+                bad = _tree_shape(w, a)
+                if bad:
+                    return "parse tree of %r in class %d: %s" % (str(o), lab, bad)
+        elif kind == 6:
+            # unparse(parse o) = o (unless a leaf is not an atom: outside the parse-tree model)
+            if a != [x] and not (a == [-1] and not _real_tree(w, lab, U.dec(x))[1]):
+                return "unparse(parse(%r)) in class %d = %r" % (str(U.dec(x)), lab, a)
         elif kind == 1:
             # the pairs must be the splits of the parent's objects of size x
             truth = []
